@@ -90,7 +90,17 @@ def gen_tagval(r):
     if k == 1: return ''
     return ''.join(r.choice('ab; \\\r\n:=sn r\\é中') for _ in range(r.randint(1, 8)))
 
+EDGE_TIMES = ['0001-01-01T00:00:00.000Z', '9999-12-31T23:59:59.999Z', '0001-01-01T00:00:00.000+23:59',
+              '9999-12-31T23:59:59.999-23:59', '0000-01-01T00:00:00.000Z', '10000-01-01T00:00:00.000Z',
+              '1970-01-01T00:00:00.000000Z', '1969-12-31T23:59:60.999Z', '2016-12-31T23:59:60.000Z',
+              '2020-02-30T00:00:00.000Z', '2020-13-01T00:00:00.000Z', '2020-01-01T24:00:00.000Z',
+              '2020-01-01T00:00:00.0000000Z', '2020-01-01T00:00:00.Z', '2020-01-01T00:00:00Z',
+              '2020-01-01T00:00:00.000+00:00', '2020-01-01T00:00:00.000z', '2020-01-01t00:00:00.000Z',
+              ' 2020-01-01T00:00:00.000Z', '2020-01-01T00:00:00.000Z ', '٢٠٢٠-01-01T00:00:00.000Z',
+              '2020-01-01T00:00:00.000+2359', '2020-01-01T00:00:00.000-00:00:01', '%s', '%(x)s', '100%sure']
 def gen_time(r):
+    if r.random() < 0.35:
+        return r.choice(EDGE_TIMES)
     k = r.randint(0, 3)
     if k == 0: return '2020-02-%02dT%02d:%02d:%02d.%03dZ' % (r.randint(1, 31), r.randint(0, 24), r.randint(0, 60), r.randint(0, 61), r.randint(0, 999))
     if k == 1: return '2011-10-19T16:40:51.620Z'
@@ -134,7 +144,7 @@ def break_one(r, pfx, cmd, args, tags):
     else: cmd = '@' + cmd
     return pfx, cmd, args, tags
 
-RAW_ALPHA = ['@', ':', ' ', ' ', ' :', ';', '=', '\\', '\r', '\n', '\r\n', 'time', 'time=', 'a', 'B', '1', 'é', '中', '\\s', '\\:', '\0', '\t', 'PRIVMSG', '#c', 'n!u@h', '2011-10-19T16:40:51.620Z']
+RAW_ALPHA = ['@', ':', ' ', ' ', ' :', '%s', 'time=0001-01-01T00:00:00.000+23:59', 'time=9999-12-31T23:59:59.999-23:59', ';', '=', '\\', '\r', '\n', '\r\n', 'time', 'time=', 'a', 'B', '1', 'é', '中', '\\s', '\\:', '\0', '\t', 'PRIVMSG', '#c', 'n!u@h', '2011-10-19T16:40:51.620Z']
 def gen_raw(r):
     k = r.randint(0, 9)
     if k < 6:
@@ -179,6 +189,16 @@ def valid_unicode(s):
 def explore(ctx, n_wf, n_near, n_raw, n_esc, corpus_lines=()):
     supybot = bot.light()
     from supybot import ircmsgs
+    # drivers.parseMsg logs the lines it skips: let supybot's real Logger format them (into the scratch
+    # logs/ directory, never to stdout) instead of short-circuiting logging altogether
+    import logging
+    from supybot import conf as _conf, log as _log
+    try:
+        _conf.supybot.log.stdout.setValue(False)
+        _conf.supybot.log.level.setValue('DEBUG')
+    except Exception:
+        pass
+    logging.disable(logging.NOTSET)
     r = rng.make('c05')
     cases = []
     lines = []      # driver input lines
